@@ -75,6 +75,8 @@ prop("C10", "exploration",
      [
          {"test": "TestC10_Mutations", "quick": {"checks": 60000, "shards": 4, "timeout": 200},
           "thorough": {"checks": 600000, "shards": 16, "timeout": 1500}},
+         {"test": "TestC10_Sequence", "quick": {"checks": 20000, "shards": 4, "timeout": 200},
+          "thorough": {"checks": 200000, "shards": 16, "timeout": 1500}},
          {"fuzz": "FuzzC10", "thorough": {"fuzztime": "90s", "workers": 8, "timeout": 400}},
      ],
      ["rows <= 65535 bytes and families <= 255 bytes (the format cannot carry more)"])
@@ -224,6 +226,8 @@ prop("C18", "exploration",
      [
          {"test": "TestC18_ReadDeadline", "quick": {"checks": 6000, "shards": 4, "timeout": 300},
           "thorough": {"checks": 80000, "shards": 16, "timeout": 2400}},
+         {"test": "TestC18_ClientTimeouts", "quick": {"checks": 1500, "shards": 4, "timeout": 300},
+          "thorough": {"checks": 30000, "shards": 16, "timeout": 2400}},
          {"test": "TestC18_ReadDeadline", "tag": "race", "thorough": {"checks": 3000, "shards": 4, "timeout": 3000, "race": True}},
      ],
      [])
